@@ -59,7 +59,7 @@ def check_case(acc, src, origin):
     if v:
         kinds = {k for k, _ in v}
         fid = classify(src, kinds)
-        if fid is None and "text-mismatch" in kinds and kinds <= _F08A_KINDS and tokcheck.pending_string_symptom(toks, mism, gaps):
+        if fid is None and "text-mismatch" in kinds and kinds <= _F08A_KINDS and tokcheck.pending_string_symptom(src, toks, mism, gaps):
             fid = "F08a"
         if fid is None:
             # F10c (nested field with its own spec inside a format spec): counterfactual - with the inner spec removed the stream tiles
@@ -80,7 +80,7 @@ def check_case(acc, src, origin):
                     v2 = tokcheck.tiling_violations(neutral, o2.value, mismatched_out=m2, gaps_out=g2)
                     if not v2:
                         fid = "F10c"
-                    elif {k for k, _ in v2} <= _F08A_KINDS and tokcheck.pending_string_symptom(o2.value, m2, g2):
+                    elif {k for k, _ in v2} <= _F08A_KINDS and tokcheck.pending_string_symptom(neutral, o2.value, m2, g2):
                         # both mechanisms in one input: what is left once the deep spec is removed is exactly the pending-string signature
                         fid = "F10c"
                         acc.finding("F08a", src[:100])
@@ -93,6 +93,8 @@ def check_case(acc, src, origin):
 MULTILINE_STRINGS = [
     'x = f"""abc\n{x}"""\n', "x = f'abc\\\n{y}'\n", "x = f'''{a}\n{b}\n'''\n", 'x = f"""{a:\n>10}"""\n', 'x = f"""\n{a}\n  {b}\nend"""\n', "x = '''a\n{b}\n'''\n",
     'x = f"""a\n\n{x}{y}\n}}{{\n"""\n', "x = rf'''\\\n{z}'''\n", 'x = """\n"""\n', "x = 'a\\\nb\\\nc'\n", 'x = f"{a}\\\n{b}"\n', "x = p'''/a\n/b'''\n", "f'''{\nx\n}'''\n", 'f"""{x:{\ny}}"""\n',
+    # backslash-continued plain strings followed by more text (their CRLF variants are derived below)
+    "x = 'abc\\\ndef'\ny\n", 'x = "a\\\nb" + c\nz = 1\n', "f('a\\\n', b'b\\\nc')\nw\n", "if a:\n    s = 'p\\\n    q'\n    t = 1\nu = 2\n", "x = ['a\\\nb',\n     'c']\ny\n",
 ]
 
 
